@@ -60,6 +60,12 @@ def run(tier):
         if i % 2: b = bytes(rng.getrandbits(8) for _ in range(ln))
         else: b = bytes(rng.choice(b"ab01 \n\t\r\"'\\/x_=+-&|(){}[];:,.\x00\xff\xc3\xa9\xe2\x82\xac") for _ in range(ln))
         cases.append(("b%d" % i, b, "bytes"))
+    # every source of ONE byte, and of two bytes over the interesting ones (the caps and counters of the token buffer
+    # are all near their start there)
+    for b_ in range(256): cases.append(("ob%d" % b_, bytes([b_]), "short-bytes"))
+    for b1 in b"a1 \n\"'\\/#@\x00\xff\xc3$;{":
+        for b2 in b"a1 \n\"'\\/#@\x00\xff\xa9$;}":
+            cases.append(("tb%d.%d" % (b1, b2), bytes([b1, b2]), "short-bytes"))
     valid = []
     for i in range(n // 8):
         g = GP.Gen(random.Random(rng.getrandbits(64)), level=3, max_funcs=4)
@@ -165,8 +171,8 @@ def run(tier):
     impl = C.run_harness("delta-total", payloads, ck.work + "/debug", timeout=3000)
     implr = C.run_harness("delta-total", payloads, ck.work + "/release", timeout=3000, binary=C.PVH_RELEASE)
     # the lexer model decides which inputs contain an invalid lexeme
-    prio = ("literal-spellings", "boundary-integers", "cast-operands", "unicode-strings", "hex-digits", "trailing-commas", "raw-bytes")      # the deterministic families first
-    small = [(c[0], c[1]) for c in sorted(cases, key=lambda c: 0 if c[2] in prio else 1) if len(c[1]) <= 4096 and c[2] != "tokens"][: (3500 if tier == "quick" else 60000)]
+    prio = ("literal-spellings", "boundary-integers", "cast-operands", "unicode-strings", "hex-digits", "trailing-commas", "raw-bytes", "short-bytes")      # the deterministic families first
+    small = [(c[0], c[1]) for c in sorted(cases, key=lambda c: 0 if c[2] in prio else 1) if len(c[1]) <= 4096 and c[2] != "tokens"][: (6500 if tier == "quick" else 60000)]
     model = C.run_model([("lex-delta", cid, b.hex() if b else "()") for cid, b in small], ck.work + "/lexmodel", timeout=3000)
     # node accounting: Model/DeltaNodes.v on the token kinds the real lexer produced
     nitems = []
